@@ -552,6 +552,9 @@ def replay(cx):
             env[k] = float(Fraction(v))
         except Exception:
             pass
+    if part == "caller_buffers":
+        badc = _caller_data_problems()
+        return dict(reproduced=bool(badc), key="caller_buffers", what="; ".join(badc[:3])[:700])
     n, p = info["n"], info["p"]
     if part == "scorer":
         from skchange.anomaly_scores import L2Saving, LocalAnomalyScore, Saving
@@ -714,3 +717,88 @@ def replay(cx):
             c11._val_stat = old
             _Tagged.replay_A = None
     return dict(reproduced=bool(bad), key=f"{det}|{hname}|{ob}|{'cost' if info.get('wrap') else 'scorer'}", what=f"{det} (n={n}, p={p}): " + "; ".join(bad)[:700])
+
+
+# ---------------------------------------------------------------------------------- caller's float64 buffers (native)
+
+def _caller_data_cases():
+    from skchange.anomaly_detectors import CAPA, MVCAPA, CircularBinarySegmentation, StatThresholdAnomaliser
+    from skchange.anomaly_scores import L2Saving, LocalAnomalyScore, Saving
+    from skchange.change_detectors import PELT, MovingWindow, SeededBinarySegmentation
+    from skchange.change_scores import CUSUM, ChangeScore
+    from skchange.costs import GaussianCovCost, GaussianVarCost, L2Cost
+    mu = np.array([1.5, -2.0])
+    S = np.array([[2.0, 0.5], [0.5, 1.5]])
+    c2, c3, c4 = np.array([[0, 12], [3, 9]]), np.array([[0, 5, 12], [2, 6, 11]]), np.array([[0, 3, 8, 12]])
+    scorers = [("L2Cost", L2Cost, c2), ("L2Cost(mean)", lambda: L2Cost(mu), c2), ("GaussianVarCost", GaussianVarCost, c2),
+               ("GaussianVarCost(mean, var)", lambda: GaussianVarCost((mu, np.array([1.0, 2.0]))), c2),
+               ("GaussianCovCost", GaussianCovCost, c2), ("GaussianCovCost(mean, cov)", lambda: GaussianCovCost((mu, S)), c2),
+               ("CUSUM", CUSUM, c3), ("ChangeScore(GaussianCovCost)", lambda: ChangeScore(GaussianCovCost()), np.array([[0, 5, 12]])),
+               ("L2Saving", L2Saving, c2), ("Saving(L2Cost(mean))", lambda: Saving(L2Cost(mu)), c2),
+               ("Saving(GaussianCovCost(mean, cov))", lambda: Saving(GaussianCovCost((mu, S))), c2),
+               ("LocalAnomalyScore(L2Cost)", lambda: LocalAnomalyScore(L2Cost()), c4),
+               ("LocalAnomalyScore(GaussianVarCost(mean, var))", lambda: LocalAnomalyScore(GaussianVarCost((mu, np.array([1.0, 2.0])))), c4)]
+    detectors = [("PELT(GaussianVarCost)", lambda: PELT(GaussianVarCost(), min_segment_length=2)),
+                 ("MovingWindow(CUSUM)", lambda: MovingWindow(CUSUM(), bandwidth=3)),
+                 ("MovingWindow(L2Cost, tuned)", lambda: MovingWindow(L2Cost(), bandwidth=3, threshold_scale=None)),
+                 ("SeededBinarySegmentation(CUSUM)", lambda: SeededBinarySegmentation(CUSUM(), min_segment_length=2)),
+                 ("CircularBinarySegmentation(L2Cost)", lambda: CircularBinarySegmentation(L2Cost(), min_segment_length=2)),
+                 ("CAPA(L2Cost(mean))", lambda: CAPA(L2Cost(mu), L2Cost(mu), min_segment_length=2)),
+                 ("CAPA(GaussianCovCost(mean, cov))", lambda: CAPA(GaussianCovCost((mu, S)), L2Cost(mu), min_segment_length=3)),
+                 ("MVCAPA(L2Saving)", lambda: MVCAPA(min_segment_length=2)),
+                 ("MVCAPA(GaussianVarCost(mean, var))", lambda: MVCAPA(GaussianVarCost((mu, np.array([1.0, 2.0]))), L2Cost(mu), min_segment_length=2))]
+    return scorers, detectors
+
+
+def _caller_data_problems():
+    """fit / evaluate / predict / transform / transform_scores / update on the caller's own float64 buffers (C-ordered
+    ndarray, single-block DataFrame): afterwards the buffers hold bit-for-bit what they held before.  Object arrays of
+    terms (the symbolic runs) cannot alias a float64 work array, so this clause of the property is checked natively."""
+    scorers, detectors = _caller_data_cases()
+    rng = np.random.default_rng(10)
+    base = np.round(rng.normal(size=(12, 2)) * 3, 2) + np.array([1.5, -2.0])
+    base[5:8] += 4.0
+    bad = []
+    with proxy.native():
+        for name, mk, cuts in scorers:
+            for kind in ("ndarray", "frame"):
+                X = base.copy() if kind == "ndarray" else pd.DataFrame(base.copy())
+                keep = np.array(base, copy=True)
+                try:
+                    s = mk().fit(X)
+                    s.evaluate(cuts)
+                    s.evaluate(cuts)
+                except Exception as ex:
+                    bad.append(f"{name} on a {kind} raised {type(ex).__name__}: {ex}"[:160])
+                    continue
+                now = X if kind == "ndarray" else X.values
+                if not np.array_equal(now, keep):
+                    bad.append(f"{name}: fit / evaluate changed the caller's float64 {kind} (max abs change {np.abs(now - keep).max():.3g})")
+        for name, mk in detectors:
+            for kind in ("ndarray", "frame"):
+                X = base.copy() if kind == "ndarray" else pd.DataFrame(base.copy())
+                keep = np.array(base, copy=True)
+                try:
+                    d = mk().fit(X)
+                    d.predict(X)
+                    d.transform(X)
+                    try:
+                        d.transform_scores(X)
+                    except NotImplementedError:
+                        pass
+                except Exception as ex:
+                    bad.append(f"{name} on a {kind} raised {type(ex).__name__}: {ex}"[:160])
+                    continue
+                now = X if kind == "ndarray" else X.values
+                if not np.array_equal(now, keep):
+                    bad.append(f"{name}: fit / predict / transform changed the caller's float64 {kind} (max abs change {np.abs(now - keep).max():.3g})")
+    return bad
+
+
+def extra(tier, seed):
+    acc = Acc()
+    bad = _caller_data_problems()
+    acc.concrete("caller_float64_buffers_not_modified", not bad, dict(part="caller_buffers", first=(bad or [""])[0][:300], n_problems=len(bad)))
+    if not bad:
+        acc.inc("translator_ok")
+    return acc
